@@ -276,6 +276,8 @@ func mkToks(types []int) []*token.Token {
 type vCase struct {
 	Seqs   [][]int `json:"seqs"` // inputs fed one after another to ONE parser object; the last one is checked
 	FailAt int     `json:"fail_at"`
+	// HistFail k > 0: in the history parses the k-th action call returns an error (a parse aborted by a semantic action)
+	HistFail int `json:"hist_fail,omitempty"`
 }
 
 func runCase(c vCase, what string) string {
@@ -283,7 +285,7 @@ func runCase(c vCase, what string) string {
 	p := NewParser()
 	ctx := &struct{ n int }{7}
 	for _, s := range c.Seqs[:len(c.Seqs)-1] {
-		realParse(p, mkToks(s), &token.Token{Type: token.EOF}, ctx, -1) // history (C16)
+		realParse(p, mkToks(s), &token.Token{Type: token.EOF}, ctx, c.HistFail-1) // history (C16)
 	}
 	last := c.Seqs[len(c.Seqs)-1]
 	toks, eof := mkToks(last), &token.Token{Type: token.EOF}
@@ -344,6 +346,18 @@ func TestVerifParse(t *testing.T) {
 			for _, h := range hist {
 				for _, s := range hist {
 					do(vCase{Seqs: [][]int{h, s}, FailAt: -1})
+				}
+			}
+			// histories (up to the full length) aborted by their first / second semantic action
+			for _, h := range seqs {
+				for hf := 1; hf <= 2; hf++ {
+					vInstall()
+					if n := len(realParse(NewParser(), mkToks(h), &token.Token{Type: token.EOF}, nil, -1).Calls); n < hf {
+						continue // the history makes fewer action calls
+					}
+					for _, s := range hist {
+						do(vCase{Seqs: [][]int{h, s}, FailAt: -1, HistFail: hf})
+					}
 				}
 			}
 		}
